@@ -85,8 +85,9 @@ Definition step (cats : comp -> option category) (s : state) (e : event) : optio
   | AddMetric c n =>
       match cats c with
       | None => Some (s, [])                                   (* "Unknown component ID": return *)
-      | Some _ =>
-          if mem_name n (st_subs s c) then Some (s, [])        (* same channel name already handled *)
+      | Some cat =>
+          if negb (supported cat (n_metric n)) then Some (s, [])   (* "Unsupported metric": return (since fix C20-invalid-metric) *)
+          else if mem_name n (st_subs s c) then Some (s, [])   (* same channel name already handled *)
           else Some (mkSt (upd (st_subs s) c (st_subs s c ++ [n])) (st_recv s)
                           (upd (st_hand s) c (Some HStarting))     (* cancel + create_task *)
                           (st_fly s) (st_acc s) (st_taken s) (st_out s), [])
